@@ -58,7 +58,18 @@ def run(ctx: core.Ctx):
             results = []
             for arr, nd, name in encs:
                 try:
+                    before = arr.copy()
                     results.append(smooth.call(variant, arr, nd, prm))
+                    # the series handed in is the caller's memory (float64 goes to the kernel without a copy): it must come back
+                    # untouched, and a second evaluation of the same memory must give the same answer
+                    if not np.array_equal(arr, before, equal_nan=True):
+                        ctx.fail(variant, dict(variant=variant, y=before.tolist(), nodata=nd, params=prm, encoding=name), dict(input_after_call=arr.tolist()),
+                                 "the input series is left unmodified", note="a smoother must not write into its input (the marks of the missing cells are the caller's data)")
+                        arr[:] = before
+                    again = smooth.call(variant, arr, nd, prm)
+                    if not (np.array_equal(again[0], results[-1][0]) and (again[1] == results[-1][1] or (again[1] != again[1] and results[-1][1] != results[-1][1]))):
+                        ctx.fail(variant, dict(variant=variant, y=before.tolist(), nodata=nd, params=prm, encoding=name),
+                                 dict(first=results[-1][0].tolist(), second=again[0].tolist()), "two evaluations of the same series agree")
                 except Exception as e:  # noqa: BLE001
                     results.append(("exc", repr(e)))
             key = (variant, tuple(y), tuple(m), tuple(sorted((k2, str(v)) for k2, v in prm.items())))
